@@ -10,9 +10,12 @@ import subprocess
 import time
 
 SOLVERS = {
-    'z3-4.8': ['/usr/bin/z3', '-in', '-T:{t}'],
-    'z3-5.1': ['z3-new', '-in', '-T:{t}'],
-    'cvc5': ['cvc5', '--lang=smt2', '--incremental', '--strings-exp', '--tlimit={tms}'],
+    # per-query time limits (z3's -T and cvc5's --tlimit bound the whole batch, which silently drops the
+    # queries after a slow one)
+    'z3-4.8': ['/usr/bin/z3', '-in', '-t:{tms}'],
+    'z3-5.1': ['z3-new', '-in', '-t:{tms}'],
+    'cvc5': ['cvc5', '--lang=smt2', '--incremental', '--produce-models', '--strings-exp',
+             '--tlimit-per={tms}'],
 }
 
 
